@@ -71,6 +71,14 @@ def table(fl: Flow, keep: Optional[Callable[[str, str], bool]] = None):
     merged = _merge_exclusive_stores(fl)
     for e, expr, cond in merged:
         expr = _propagate_equalities(expr, cond)
+        if cond:
+            # later conjuncts of a path condition are evaluated under the earlier ones
+            if any(isinstance(n, ast.IfExp) for t, _p in cond for n in ast.walk(t)):
+                nc: list = []
+                for t, pol in cond:
+                    nc.append((resolve_under(fl, t, _cond_ast(nc)) if nc else t, pol))
+                cond = tuple(nc)
+            expr = resolve_under(fl, expr, _cond_ast(cond))
         s = fl.canon(expr)
         if keep is not None and not keep(e.kind, s):
             continue
@@ -114,6 +122,38 @@ def _propagate_equalities(expr: ast.AST, cond) -> ast.AST:
             for k, v in subs:
                 if d == k:
                     return copy.deepcopy(v)
+            return self.generic_visit(n)
+
+    return T().visit(copy.deepcopy(expr))
+
+
+def resolve_under(fl: Flow, expr: ast.AST, cond_ast: Optional[ast.AST]) -> ast.AST:
+    """A conditional value inside an effect whose test the effect's own path condition decides is the arm that condition selects:
+    `write(b if miss else c)` under `miss` is `write(b)`.  (Decided on truth tables, so the test may be spelled differently.)"""
+    if cond_ast is None or not any(isinstance(n, ast.IfExp) for n in ast.walk(expr)):
+        return expr
+    import copy
+    pr = fl.cprinter
+    cb = pr._bool(cond_ast)
+
+    def decided(test: ast.AST):
+        tb = pr._bool(test)
+        t = pr._tables([pr._mk("and", [cb, tb]), pr._mk("and", [cb, pr._bool(test, False)])])
+        if t is None:
+            return None
+        if t[1][1] == 0 and t[1][0] != 0:
+            return True   # cond and not test is impossible
+        if t[1][0] == 0 and t[1][1] != 0:
+            return False
+        return None
+
+    class T(ast.NodeTransformer):
+        def visit_IfExp(self, n: ast.IfExp):
+            d = decided(n.test)
+            if d is True:
+                return self.visit(n.body)
+            if d is False:
+                return self.visit(n.orelse)
             return self.generic_visit(n)
 
     return T().visit(copy.deepcopy(expr))
